@@ -155,8 +155,21 @@ func (fr *Frame) exec(st *State, pc Term, ins ssa.Instruction) bool {
 			e.fail("%s: FieldAddr on value kind %d", fr.key, x.K)
 		}
 	case *ssa.Field:
-		x := e.toTerm(st, fr.get(st, ins.X))
-		fr.vals[ins] = e.wrap(st, u.Field(x, ins.Field), "field")
+		xv := fr.get(st, ins.X)
+		x := e.toTerm(st, xv)
+		flab := labelOf(xv)
+		own := ""
+		if xv.K == vTerm {
+			if fl, ok := xv.FLab[ins.Field]; ok {
+				flab = fl
+				own = xv.FOwn[ins.Field]
+			} else if xv.Lab != "" {
+				flab = xv.Lab
+			} else {
+				flab = "fresh"
+			}
+		}
+		fr.vals[ins] = e.wrapOwn(st, u.Field(x, ins.Field), flab, own)
 	case *ssa.Index:
 		x := fr.get(st, ins.X)
 		i := e.toTerm(st, fr.get(st, ins.Index))
@@ -165,7 +178,7 @@ func (fr *Frame) exec(st *State, pc Term, ins ssa.Instruction) bool {
 			fr.vals[ins] = termVal(App(SInt, "str.to_code", App(SString, "str.at", x.T, i)))
 		} else if x.K == vSlice {
 			fr.safety("index", ins.Pos(), pc, And(Cmp("<=", IntLit(0), i), Cmp("<", i, x.Len)), "index in range")
-			fr.vals[ins] = e.wrap(st, u.SIndex(e.toTerm(st, x), i), "field")
+			fr.vals[ins] = e.wrap(st, u.SIndex(e.toTerm(st, x), i), labelOf(x))
 		} else {
 			e.note("unmodelled Index on %s", ins.X.Type())
 			fr.vals[ins] = e.freshVal(st, "index", ins.Type(), "fresh", pc)
@@ -173,7 +186,8 @@ func (fr *Frame) exec(st *State, pc Term, ins ssa.Instruction) bool {
 	case *ssa.Slice:
 		fr.vals[ins] = fr.sliceOp(st, pc, ins)
 	case *ssa.Lookup:
-		m := e.toTerm(st, fr.get(st, ins.X))
+		mv := fr.get(st, ins.X)
+		m := e.toTerm(st, mv)
 		k := e.toTerm(st, fr.get(st, ins.Index))
 		if m.Sort == SString {
 			fr.safety("index", ins.Pos(), pc, And(Cmp("<=", IntLit(0), k), Cmp("<", k, App(SInt, "str.len", m))), "string index in range")
@@ -183,7 +197,7 @@ func (fr *Frame) exec(st *State, pc Term, ins ssa.Instruction) bool {
 		d := u.DT(m.Sort)
 		has := u.MHas(m, k)
 		val := Ite(has, u.MGet(m, k), u.Zero(d.Elem))
-		vv := e.wrap(st, e.name("lk", val), "field")
+		vv := e.wrap(st, e.name("lk", val), labelOf(mv))
 		if ins.CommaOk {
 			fr.vals[ins] = Val{K: vTuple, Tup: []Val{vv, termVal(has)}}
 		} else {
@@ -200,6 +214,7 @@ func (fr *Frame) exec(st *State, pc Term, ins ssa.Instruction) bool {
 		if e.prov != nil {
 			e.prov.write(e, m.R, ins.Pos(), "map update")
 		}
+		m.R.ElemLabel = joinLabel(elemLabel(m.R), plainLabel(labelOf(fr.get(st, ins.Value))))
 		cur := st.mem[m.R]
 		has := u.MHas(cur, k)
 		st.mem[m.R] = e.name("mu", u.MkMap(m.S,
@@ -226,10 +241,11 @@ func (fr *Frame) exec(st *State, pc Term, ins ssa.Instruction) bool {
 		fr.vals[ins] = Val{K: vClo, Fn: ins.Fn.(*ssa.Function), Binds: binds}
 	case *ssa.MakeInterface:
 		x := fr.get(st, ins.X)
-		fr.vals[ins] = termVal(e.makeInterface(st, x, ins.X.Type(), ins.Type()))
+		fr.vals[ins] = labVal(e.makeInterface(st, x, ins.X.Type(), ins.Type()), plainLabel(labelOf(x)))
 	case *ssa.ChangeInterface:
-		x := e.toTerm(st, fr.get(st, ins.X))
-		fr.vals[ins] = termVal(e.changeInterface(x, e.p.sortOf(ins.Type())))
+		xv := fr.get(st, ins.X)
+		x := e.toTerm(st, xv)
+		fr.vals[ins] = labVal(e.changeInterface(x, e.p.sortOf(ins.Type())), labelOf(xv))
 	case *ssa.ChangeType:
 		x := fr.get(st, ins.X)
 		if x.K == vSlice || x.K == vMap {
@@ -301,7 +317,7 @@ func (fr *Frame) next(st *State, pc Term, ins *ssa.Next) {
 	q := Term{"qk", d.Key}
 	e.assume(Implies(Not(ok), T(SBool, "(forall ((qk %s)) (=> %s %s))", d.Key, u.MHas(m, q).S, App(SBool, "select", vis, q).S)))
 	st.cell[it.visRoot] = termVal(e.name("vis", Ite(ok, App(vis.Sort, "store", vis, k, True), vis)))
-	v := e.wrap(st, u.MGet(m, k), "field")
+	v := e.wrap(st, u.MGet(m, k), labelOf(it.Map))
 	fr.vals[ins] = Val{K: vTuple, Tup: []Val{termVal(ok), termVal(k), v}}
 }
 
@@ -682,7 +698,7 @@ func (e *Exec) changeInterface(x Term, to Sort) Term {
 }
 
 // assertTo returns (ok, value) for asserting interface term x to Go type t.
-func (e *Exec) assertTo(st *State, x Term, t types.Type) (Term, Val, bool) {
+func (e *Exec) assertTo(st *State, x Term, t types.Type, lab string) (Term, Val, bool) {
 	_ = e.p.U
 	name := namedName(t)
 	is := func(c string, t Term) Term { return App(SBool, "(_ is "+c+")", t) }
@@ -698,7 +714,7 @@ func (e *Exec) assertTo(st *State, x Term, t types.Type) (Term, Val, bool) {
 	}
 	arr := func(kind int) (Term, Val, bool) {
 		ok := And(nodeOK, is("n_arr", node), Eq(App(SInt, "kind", node), IntLit(int64(kind))))
-		v := e.wrap(st, e.asSort(App("SliceNode", "elems", node), e.p.sortOf(t)), "field")
+		v := e.wrap(st, e.asSort(App("SliceNode", "elems", node), e.p.sortOf(t)), lab)
 		return ok, v, true
 	}
 	if x.Sort == SNode || x.Sort == SAny {
@@ -712,7 +728,7 @@ func (e *Exec) assertTo(st *State, x Term, t types.Type) (Term, Val, bool) {
 		case "jsonMultiset":
 			return arr(KMultiset)
 		case "jsonObject":
-			return And(nodeOK, is("n_obj", node)), e.wrap(st, App("MapNode", "ov", node), "field"), true
+			return And(nodeOK, is("n_obj", node)), e.wrap(st, App("MapNode", "ov", node), lab), true
 		case "jsonString":
 			return And(nodeOK, is("n_str", node)), termVal(App(SString, "sv", node)), true
 		case "jsonNumber":
@@ -743,9 +759,9 @@ func (e *Exec) assertTo(st *State, x Term, t types.Type) (Term, Val, bool) {
 		case "PathMultiset":
 			return And(peOK, is("pe_mset", pe)), e.zeroVal(st, t), true
 		case "PathSetKeys":
-			return And(peOK, is("pe_setkeys", pe)), e.wrap(st, App("MapNode", "psk", pe), "field"), true
+			return And(peOK, is("pe_setkeys", pe)), e.wrap(st, App("MapNode", "psk", pe), lab), true
 		case "PathMultisetKeys":
-			return And(peOK, is("pe_msetkeys", pe)), e.wrap(st, App("MapNode", "pmk", pe), "field"), true
+			return And(peOK, is("pe_msetkeys", pe)), e.wrap(st, App("MapNode", "pmk", pe), lab), true
 		case "PathAllValues":
 			return And(peOK, is("pe_allvalues", pe)), e.zeroVal(st, t), true
 		}
@@ -764,7 +780,7 @@ func (e *Exec) assertTo(st *State, x Term, t types.Type) (Term, Val, bool) {
 			s := e.p.sortOf(t)
 			return is("o_precision", x), termVal(App(s, "mk_"+string(s), App(SReal, "oprec", x))), true
 		case "setKeysOption":
-			return is("o_setkeys", x), e.wrap(st, e.asSort(App("SliceString", "okeys", x), e.p.sortOf(t)), "field"), true
+			return is("o_setkeys", x), e.wrap(st, e.asSort(App("SliceString", "okeys", x), e.p.sortOf(t)), lab), true
 		case "pathOption":
 			return is("o_path", x), e.freshVal(st, "popt", t, "fresh", True), true
 		}
@@ -786,11 +802,11 @@ func (e *Exec) assertTo(st *State, x Term, t types.Type) (Term, Val, bool) {
 		switch s {
 		case "SliceAny":
 			if _, isNamed := t.(*types.Named); !isNamed {
-				return is("a_slice", x), e.wrap(st, App("SliceAny", "asl", x), "field"), true
+				return is("a_slice", x), e.wrap(st, App("SliceAny", "asl", x), lab), true
 			}
 		case "MapAny":
 			if _, isNamed := t.(*types.Named); !isNamed {
-				return is("a_map", x), e.wrap(st, App("MapAny", "am", x), "field"), true
+				return is("a_map", x), e.wrap(st, App("MapAny", "am", x), lab), true
 			}
 		case SHash:
 			return is("a_hash", x), termVal(App(SHash, "ah", x)), true
@@ -807,8 +823,12 @@ func (e *Exec) assertTo(st *State, x Term, t types.Type) (Term, Val, bool) {
 
 func (fr *Frame) typeAssert(st *State, pc Term, ins *ssa.TypeAssert) {
 	e := fr.e
-	x := e.toTerm(st, fr.get(st, ins.X))
-	ok, v, sup := e.assertTo(st, x, ins.AssertedType)
+	xv := fr.get(st, ins.X)
+	x := e.toTerm(st, xv)
+	ok, v, sup := e.assertTo(st, x, ins.AssertedType, labelOf(xv))
+	if v.K == vTerm && v.Lab == "" {
+		v.Lab = labelOf(xv)
+	}
 	if !sup {
 		e.note("unmodelled type assertion %s.(%s)", ins.X.Type(), ins.AssertedType)
 		ok = e.fresh("assert_ok", SBool)
@@ -818,7 +838,7 @@ func (fr *Frame) typeAssert(st *State, pc Term, ins *ssa.TypeAssert) {
 	if ins.CommaOk {
 		// on failure the value is the zero value
 		if v.K == vTerm {
-			v = termVal(Ite(ok, v.T, e.p.U.Zero(v.T.Sort)))
+			v = labVal(Ite(ok, v.T, e.p.U.Zero(v.T.Sort)), v.Lab)
 		}
 		fr.vals[ins] = Val{K: vTuple, Tup: []Val{v, termVal(ok)}}
 		return
